@@ -161,7 +161,11 @@ def _window_model():
 
 def run_cases(cases, targets=("sql.sqlite", "sql.generic")):
     with _window_model():
-        return R.run_cases(cases, targets=targets)
+        try:
+            return R.run_cases(cases, targets=targets)
+        except RuntimeError:
+            # a coqc shard of coq_eval was killed (overloaded machine): once more
+            return R.run_cases(cases, targets=targets)
 
 
 # ------------------------------------------------------------------ instances
